@@ -10,7 +10,7 @@ Oracle: the property text on the implementation: use_df untouched; restoration o
 left on ANY signal of the scenario; tuple count; every analytical value = entry of an independently backpropagated
 sensitivity for the seed; every numerical value = the seed-weighted difference quotient recomputed independently (exact
 rationals); numerical value -> true derivative with O(dx) error via exact extrapolation; wrong adjoint <=> mismatch.
-The witnesses of the fixed findings F07, F24, F25, F26 are corpus cases and regression probes.
+The witnesses of the fixed findings F07, F24, F25, F26, F27 are corpus cases and regression probes.
 """
 import os, io, json, glob, copy, contextlib
 from fractions import Fraction
@@ -178,7 +178,7 @@ def make_poly_class(pym):
 
 
 # ----------------------------------------------------------------------------- scenario = plain data (json-able)
-# roots: [{'value': spec or None, 'sens': spec or None}]   value spec: {'kind','shape','data':[[re,im]..],'cx','order'}
+# roots: [{'value': spec or None, 'sens': spec or None, 'keep': bool (default true: constructed with `sens`)}]   value spec: {'kind','shape','data':[[re,im]..],'cx','order'}
 # mods : [{'ins': [ref], 'outs': [root ids], 'spec': {...}}]  ref: {'root': i, 'index': json index or None}
 #        spec['pysens'] (optional): sensitivities of scalar inputs are returned as Python float / complex
 # fd   : {'network','fromsig':[ref]|None,'tosig':[root]|None,'k','relative','random','use_df':[...]|None,'keep_zero'}
@@ -218,9 +218,11 @@ class Scenario:
         self.roots = []
         for i, r in enumerate(data['roots']):
             kw = {}
-            if r.get('sens') is not None:
-                kw['sensitivity'] = build_value(r['sens'])
+            if r.get('sens') is not None and r.get('keep', True):
+                kw['sensitivity'] = build_value(r['sens'])      # constructed with a sensitivity: the allocation is kept
             self.roots.append(pym.Signal(f's{i}', state=build_value(r['value']), **kw))
+            if r.get('sens') is not None and not r.get('keep', True):
+                self.roots[-1].sensitivity = build_value(r['sens'])      # left over from an earlier computation
         self.mods = []
         for m in data['mods']:
             ins = [self.ref(x) for x in m['ins']]
@@ -472,8 +474,8 @@ def gen_scenario(ctx, rng):
     network = rng.random() < 0.55
     roots, mods = [], []
 
-    def new_root(value=None, sens=None):
-        roots.append(dict(value=value, sens=sens))
+    def new_root(value=None, sens=None, keep=True):
+        roots.append(dict(value=value, sens=sens, keep=keep))
         return len(roots) - 1
 
     def new_input():
@@ -491,12 +493,13 @@ def gen_scenario(ctx, rng):
             cx = False     # real array in a complex network (never sliced, never kept)
         order = 'F' if (kind == 'arr' and len(shape) == 2 and rng.random() < 0.25) else 'C'
         v = rand_value(rng, kind, shape, cx, relative, order)
-        sens = None
-        if kind == 'arr' and rng.random() < 0.12 and (v['cx'] or not cxfam):
-            sens = rand_value(rng, 'arr', shape, v['cx'], False)      # left-over sensitivity = kept allocation
-            ctx.count('input:kept-allocation')
+        sens, keep = None, True
+        if kind == 'arr' and rng.random() < 0.18 and (v['cx'] or not cxfam):
+            sens = rand_value(rng, 'arr', shape, v['cx'], False)      # left-over sensitivity
+            keep = rng.random() < 0.6                                   # ... in an allocation that is kept, or not
+            ctx.count('input:left-over-sensitivity' + ('-kept-allocation' if keep else ''))
         ctx.count('input:' + kind + ('-complex' if v['cx'] else '') + (f'-{len(shape)}d' if kind == 'arr' else ''))
-        return new_root(v, sens), v
+        return new_root(v, sens, keep), v
 
     def size_of(ref):
         v = roots[ref['root']]['value']
@@ -707,6 +710,9 @@ FIXED_WITNESSES = {
     'F26_upstream_output_keeps_seed.json':
         ('finite_difference', 'no sensitivity is left set after the call',
          'output of interest produced before the selected sub-network'),
+    'F27_stale_input_sensitivity_outside_slice.json':
+        ('finite_difference', 'analytical value is the backpropagated sensitivity of the seed',
+         'stale sensitivity on entries of an input of interest that the modules use only through a slice'),
 }
 
 
@@ -717,7 +723,7 @@ def run(ctx):
     ctx.rule = ('networks of 1..3 user-defined polynomial modules (integer / Gaussian-integer matrices, linear and quadratic, '
                 '~30% with a deliberately wrong adjoint, ~40% returning Python float/complex sensitivities for scalar inputs), '
                 'inputs: python float/int/complex, numpy scalars, 0-D..2-D float and complex arrays (C and Fortran order), '
-                'basic / reversed / integer-array slices, left-over and kept sensitivities; outputs: scalars, arrays, sparse '
+                'basic / reversed / integer-array slices, left-over sensitivities (with and without kept allocation); outputs: scalars, arrays, sparse '
                 'matrices, ~18% constructed with a kept sensitivity allocation (zeros or stale values); all flag combinations '
                 '(relative_dx, random, use_df, keep_zero_structure, verbose), fromsig/tosig choices incl. intermediate signals, '
                 'outputs of interest produced upstream of the selected sub-network, and unused signals; '
@@ -736,11 +742,6 @@ def run(ctx):
         'is produced at or after the first module using a fromsig), no fromsig is produced inside it and every fromsig '
         'has a state when it runs (other requests are counted as skipped:request-outside-subnetwork-contract); '
         'a tosig produced upstream of the sub-network is inside the contract and generated',
-        'oracle precondition for the analytical-value clauses: the caller hands over no left-over (non-zero) sensitivity on '
-        'an entry of an input of interest that no reset of the executed modules reaches (fromsig is the base Signal, the '
-        'executed modules use it only through slices); such cases are generated, compared exactly with the model '
-        '(which reproduces the left-over in the reported analytical value) and counted as '
-        'oracle:left-over-sensitivity-on-input-not-reached-by-reset',
         'one-level slices as module inputs (nested slices are covered for Signals by C18)']
     ctx.trusted += ['Print Assumptions: theorems over Qc are closed under the global context',
                     'the user-defined module family Poly in tools/checks/C19.py mirrors Model/FD.v poly_f / poly_vjp '
@@ -812,7 +813,7 @@ def run(ctx):
 
 
 def regression_probes(ctx, pym, Poly, datas):
-    """the witnesses of the fixed findings F24, F25, F26, each checked for exactly the predicate under which it was
+    """the witnesses of the fixed findings F24, F25, F26, F27, each checked for exactly the predicate under which it was
     registered; a violation here means the defect is back (entries with status "fixed" suppress nothing)"""
     byname = {lab[1]: data for data, lab in datas if lab[0] == 'corpus'}
     for name, (cs, pr, ic) in FIXED_WITNESSES.items():
@@ -842,6 +843,12 @@ def regression_probes(ctx, pym, Poly, datas):
             left = {i: str(r.sensitivity) for i, r in enumerate(sc.roots) if r.sensitivity is not None}
             if left:
                 ctx.violation('impl-violates', cs, pr, ic, case, expected='every sensitivity None', got=left)
+        elif name.startswith('F27'):
+            left = {i: str(r.sensitivity) for i, r in enumerate(sc.roots) if r.sensitivity is not None and np.any(flat(r.sensitivity) != 0)}
+            got = [(t[2], t[3]) for t in res['tuples']]
+            if got != [(2.0, 2.0), (2.0, 2.0), (0.0, 0.0)] or left:
+                ctx.violation('impl-violates', cs, pr, ic, case, expected='pairs (2,2), (2,2), (0,0); no sensitivity left',
+                              got=dict(pairs=str(got), left=left))
         elif name.startswith('F25'):
             if len(res['tuples']) != 2:
                 ctx.violation('impl-violates', cs, pr, ic, case, expected='a real and an imaginary tuple', got=str(res['tuples']))
@@ -975,49 +982,36 @@ def oracle(ctx, pym, Poly, results):
             # (a2) no sensitivity is left on ANY signal: None; zeros only where an allocation is kept or on the base of
             #      a slice of an executed module; a stale value that was there before the call may only survive where
             #      the routine has no business (not a signal of the executed modules, not an output of interest)
-            direct = inside | {x['root'] for m in exec_mods for x in m['ins'] if x.get('index') is None}
+            inps_ref, outs_ref = r1['inps_ref'], r1['outs_ref']
+            # signals the routine resets as a whole: signals of the executed modules, outputs and inputs of interest
+            owned = inside | {x['root'] for m in exec_mods for x in m['ins'] if x.get('index') is None} | set(outs_ref) | \
+                {x['root'] for x in inps_ref if x.get('index') is None}
             slice_pos = {}
             scn = Scenario(pym, Poly, nd)
-            for m in exec_mods:
-                for x in m['ins']:
-                    if x.get('index') is not None:
-                        st0 = ref.roots[x['root']].state
-                        A = np.arange(st0.size).reshape(st0.shape)[dec_index(x['index'])]
-                        slice_pos.setdefault(x['root'], set()).update(int(v) for v in np.asarray(A).ravel())
+            for x in [x for m in exec_mods for x in m['ins']] + list(inps_ref):
+                if x.get('index') is not None:
+                    slice_pos.setdefault(x['root'], set()).update(scn.ref_info(x)[0])
+            exec_slice_bases = {x['root'] for m in exec_mods for x in m['ins'] if x.get('index') is not None}
             for i, r in enumerate(sc.roots):
                 s = r.sensitivity
                 init = scn.roots[i].sensitivity
-                if init is None:
-                    if s is None or (i in slice_pos and not np.any(flat(s) != 0)):
+                zeros_ok = scn.roots[i].keep_alloc or i in exec_slice_bases
+                if init is None or i in owned:
+                    if s is None or (zeros_ok and not np.any(flat(s) != 0)):
                         continue
-                    bad('no sensitivity is left set after the call', 'restore', None, f'signal {i}: {s}')
-                elif i in direct or i in r1['outs_ref']:
-                    if s is not None and np.any(flat(s) != 0):
-                        bad('no sensitivity is left set after the call', 'kept allocation', 'zeros', f'signal {i}: {s}')
+                    bad('no sensitivity is left set after the call', 'restore' if init is None else 'left-over sensitivity',
+                        'None' + (' or zeros' if zeros_ok else ''), f'signal {i}: {s}')
                 else:
+                    # a left-over the routine has no business with (not a signal of the executed modules, not of interest):
+                    # only the entries addressed by executed slices / sliced inputs of interest are zeroed
                     exp = np.array(flat(init), copy=True)
                     for pz in slice_pos.get(i, ()):
                         exp[pz] = 0
                     if s is None or not np.array_equal(flat(s), exp):
-                        bad('no sensitivity is left set after the call', 'stale allocation outside the routine',
+                        bad('no sensitivity is left set after the call', 'left-over sensitivity outside the routine',
                             str(exp), f'signal {i}: {s}')
             # (b) the tuples, recomputed independently: which entries, in which order, x0, dx, analytical value = entry
             #     of the backpropagated sensitivity for the seed, numerical value = seed-weighted difference quotient
-            inps_ref, outs_ref = r1['inps_ref'], r1['outs_ref']
-            # precondition of the analytical clauses: the caller left no sensitivity on an entry of an input of interest
-            # that no reset of the executed modules reaches (the input of interest is the base Signal, the executed modules
-            # use it only through slices, and it was handed over with a non-zero sensitivity outside those slices)
-            dirty = False
-            for x in inps_ref:
-                i = x['root']
-                init = scn.roots[i].sensitivity
-                if init is None or i in direct or i in outs_ref:
-                    continue
-                pos = range(np.asarray(init).size) if x.get('index') is None else scn.ref_info(x)[0]
-                if any(flat(init)[pz] != 0 and pz not in slice_pos.get(i, ()) for pz in pos):
-                    dirty = True
-            if dirty:
-                ctx.count('oracle:left-over-sensitivity-on-input-not-reached-by-reset')
             outputs = [ref.roots[o].state for o in outs_ref]
             try:
                 seeds = seeds_used(fd, outputs, r1['rand'])
@@ -1065,8 +1059,8 @@ def oracle(ctx, pym, Poly, results):
                     if ge[0] != ee[0] or ge[1] != ee[1]:
                         bad('tuples report the original entry and dx, in np.nditer order', 'order', str(ee[:2]), str(ge[:2]))
                         break
-                    if ge[2] != ee[2] and not dirty:
-                        bad('analytical value equals the backpropagated sensitivity entry for the seed used', 'an-value',
+                    if ge[2] != ee[2]:
+                        bad('analytical value is the backpropagated sensitivity of the seed', 'an-value',
                             str(ee[2]), dict(tuple_index=e, got=str(ge[2])))
                         break
                     if ge[3] != ee[3]:
@@ -1102,7 +1096,7 @@ def oracle(ctx, pym, Poly, results):
                     bad('numerical value equals the true directional derivative up to O(dx)', 'fd-value', str(T), str(g0))
                 if an != T:
                     mismatch = True
-                    if not wrong_any and not dirty:
+                    if not wrong_any:
                         bad('a correct sensitivity is reported with a matching pair', 'an-value', str(T), str(an))
             if wrong_any and not mismatch and len(runs[0]) > 0:
                 # a wrong entry can hide behind a zero seed weight / an unperturbed (zero) entry: count, do not alarm
